@@ -577,6 +577,11 @@ def _bounds_fork(interp, arr, i, node, what='index'):
     if not interp.ctx.decide(ok, f'{what}-in-range@L{getattr_lineno(node)}'):
         interp.ctx.use(A('python.index', 'indexing a sequence or 1-D array outside -n <= i < n raises IndexError'))
         interp.raise_(IndexError, f'{what}@L{getattr_lineno(node)}', real_args=('index out of range',))
+    ctx = interp.ctx
+    if not ctx._feasible(i < 0):
+        return z3.simplify(i)
+    if not ctx._feasible(i >= 0):
+        return z3.simplify(i + n)
     return z3.simplify(norm_index(i, n))
 
 
@@ -660,7 +665,11 @@ def setitem(interp, obj, idx, v, node=None):
         it = _index_term(idx)
         if it is not None:
             j = _bounds_fork(interp, obj, it, node, 'store-index')
-            obj.arr = z3.Store(obj.arr, j, coerce_elem(interp, obj, v, node))
+            val = coerce_elem(interp, obj, v, node)
+            hook = builtins.getattr(obj, 'on_store', None)
+            if hook is not None:
+                hook(j, val)
+            obj.arr = z3.Store(obj.arr, j, val)
             return
         if isinstance(idx, slice):
             if idx.step is not None and not (not is_sym(idx.step) and idx.step == 1):
@@ -1373,6 +1382,18 @@ def model_catch_warnings(interp, args, kwargs, node):
 def model_simplefilter(interp, args, kwargs, node):
     interp.ctx.ghost['wfilter'] = args[0]
     return None
+
+
+UF_INDENT = z3.Function('textwrap_indent', STR, STR, STR)
+
+
+import textwrap as _textwrap
+
+
+@model(_textwrap.indent)
+def model_textwrap_indent(interp, args, kwargs, node):
+    interp.ctx.use(A('textwrap.indent', 'textwrap.indent(text, prefix) is a function of its two arguments only'))
+    return SStr(UF_INDENT(z3_of(args[0]), z3_of(args[1])))
 
 
 def construct(interp, cls, args, kwargs, node=None):
